@@ -288,7 +288,13 @@ where
                 )))))
             }
 
-            Rtype::AXFR | Rtype::IXFR if xfr_data.diffs().is_empty() => {
+            // An AXFR query is always answered with the whole zone, also if
+            // the data provider returned diffs because the query happened
+            // to carry a SOA record in its authority section.
+            Rtype::AXFR | Rtype::IXFR
+                if q.qtype() == Rtype::AXFR
+                    || xfr_data.diffs().is_empty() =>
+            {
                 if q.qtype() == Rtype::IXFR && xfr_data.diffs().is_empty() {
                     // https://datatracker.ietf.org/doc/html/rfc1995#section-4
                     // 4. Response Format
